@@ -1000,6 +1000,21 @@ fn gen_c06(r: &mut Rng, seed: u64, idx: u64) -> Scenario {
             }
         }
     }
+    if !sweep && n > 2 && r.chance(1, 8) {
+        // ... and because such guards are no mappings of their own, thread stacks allocated one after the
+        // other merge into a single mapping: guard, stack, guard, stack. A read from the lower stack to
+        // the end of the mapping runs into the upper stack's guard.
+        let (ta, tb) = (1usize, 2usize);
+        let (pa, pb) = (r.range(1, 6), r.range(1, 6));
+        let start = b.add_anon((pa + pb + 2) * 0x1000, "rw-p", r.next(), 3);
+        let (ga, sa) = (start, start + 0x1000);
+        let (gb, sb) = (sa + pa * 0x1000, sa + pa * 0x1000 + 0x1000);
+        b.world.no_remote.push((ga, 0x1000));
+        b.world.no_remote.push((gb, 0x1000));
+        b.world.threads[ta].regs[R_RSP] = sa + r.below(pa * 512) * 8;
+        b.world.threads[tb].regs[R_RSP] = sb + r.below(pb * 512) * 8;
+        tags.push("stacks-share-one-mapping".into());
+    }
     if !sweep && r.chance(1, 10) {
         // a thread running on a stack below the executable (MAP_32BIT / fixed low mapping)
         let ti = r.below(n as u64) as usize;
@@ -3013,7 +3028,7 @@ fn gen_c02(r: &mut Rng, seed: u64) -> Scenario {
     // where the stop does arrive (a zombie leader never shows state T, a late stopper needs its time)
     if let Workload::Dump(p) = &mut sc.workload {
         if p.opts.stop_timeout_ms == Some(u64::MAX) {
-            let never = sc.world.threads.first().map(|t| t.zombie || t.foreign_tracer).unwrap_or(false) || !sc.events.is_empty() || sc.world.threads.iter().any(|t| t.stop_latency_ns > 150_000_000 || t.blocked_until_ns > 0) || sc.faults.iter().any(|f| f.trig.kind == CallKind::Kill);
+            let never = sc.world.threads.first().map(|t| t.foreign_tracer).unwrap_or(false) || sc.world.threads.iter().skip(1).any(|t| t.foreign_tracer && sc.world.threads[0].zombie) || !sc.events.is_empty() || sc.world.threads.iter().any(|t| t.stop_latency_ns > 150_000_000 || t.blocked_until_ns > 0) || sc.faults.iter().any(|f| f.trig.kind == CallKind::Kill);
             if never {
                 p.opts.stop_timeout_ms = Some(100);
             }
